@@ -114,6 +114,9 @@ macro_rules! wrap_twins {
                 let m: u64 = kani::any();
                 assert!(W::from_num(m).to_bits() == (m << $f) as $T);
                 assert!(x.to_num::<i16>() == fx.wrapping_to_num::<i16>());
+                // conversion from bool: 1 * 2^f modulo 2^8 (0 for types that cannot hold 1; seed C04-H)
+                let b: bool = kani::any();
+                assert!(W::from_num(b).to_bits() == ((b as u32) << $f) as $T);
                 assert!(W::from(fx) == x && W::from_bits(a) == x && x.to_bits() == a);
             }
         }
